@@ -44,6 +44,10 @@ where
     let mut header = [0u8; SNA_HEADER_SIZE];
     asset.read_exact(&mut header)?;
 
+    if header[25] & SNA_INTERRUPT_MODE_MASK > 2 {
+        return Err(SnapshotLoadError::InvalidSNAFile.into());
+    }
+
     // The snapshot describes a CPU at an instruction boundary: drop HALT, pending
     // prefix and EI/DI shadow state of whatever was running before
     emulator.cpu = Z80::default();
